@@ -34,15 +34,25 @@ Definition obs_match (a b : obs) : bool :=
   end.
 
 (** what the harness reads directly from the DuckDB connection / the file system after a step *)
-Record snap := mkSnap { sn_tabs : tables; sn_files : list (string * bool) }.
+Record snap := mkSnap {
+  sn_tabs : tables; sn_files : list (string * bool);
+  (* the catalog API asked after the step: per table name of the history (tableExists, listColumns, getTable succeeded),
+     and listTables *)
+  sn_cat : list (string * (bool * schema * bool));
+  sn_list : list string }.
 
 Definition tabs_match (impl model : tables) : bool :=
   set_eqb (akeys impl) (akeys model)
   && forallb (fun kv => match alookup (fst kv) model with Some t => tbl_match (snd kv) t | None => false end) impl.
 Definition files_match (impl : list (string * bool)) (model : files) : bool :=
   forallb (fun kv => Bool.eqb (snd kv) (ahas (fst kv) model)) impl.
+Definition cat_match (impl : list (string * (bool * schema * bool))) (listed : list string) (model : tables) : bool :=
+  set_eqb listed (akeys model)
+  && forallb (fun kv => let '(ex, cols, got) := snd kv in
+                        Bool.eqb ex (ahas (fst kv) model) && Bool.eqb got (ahas (fst kv) model)
+                        && schema_eqb cols (match alookup (fst kv) model with Some t => t_cols t | None => [] end)) impl.
 Definition snap_match (s : snap) (tabs : tables) (fs : files) : bool :=
-  tabs_match (sn_tabs s) tabs && files_match (sn_files s) fs.
+  tabs_match (sn_tabs s) tabs && files_match (sn_files s) fs && cat_match (sn_cat s) (sn_list s) tabs.
 
 Record case := mkCase { c_ops : list op; c_obs : list obs; c_snaps : list snap }.
 
